@@ -15,7 +15,7 @@ type C13Case struct {
 	Redef bool  `json:"redef,omitempty"` // the file redefines a constant and must be rejected on that line
 }
 
-func c13Src(c *C13Case) string { return Canon(c.File) }
+func c13Src(c *C13Case) string { return CanonMaybeDense(c.File) }
 
 // ---- the twin: definitions removed, later documented uses written out ----
 
